@@ -165,6 +165,8 @@ def add_dyndep(draw, g, f_dd_validation=True):
             earlier = [x for x in earlier if x not in e['exp'] + e['imp'] + e['oo'] + e.get('hidden', [])]
             e['dd'] = dd
             e['dd_ins'] = draw(st.lists(st.sampled_from(earlier), max_size=2, unique=True)) if earlier else []
+            if draw(st.integers(0, 5)) == 5:
+                e['dd_ins'].append(dd)      # the dyndep file names itself as an implicit input (as `| dd || dd` would in the manifest)
             e['dd_outs'] = ["ddo%d_%d" % (d, i)] if draw(st.integers(0, 1)) == 1 else []
             e['dd_restat'] = draw(st.integers(0, 3)) == 3
             e['dd_spell'] = draw(st.sampled_from([0, 0, 1, 2, 3]))    # how the dyndep file spells this statement's paths
